@@ -16,6 +16,7 @@ import (
 	"syscall"
 
 	"filippo.io/age"
+	"filippo.io/age/armor"
 	"filippo.io/age/zverif/mon"
 )
 
@@ -509,6 +510,8 @@ func (e *edited) kinds() []string {
 	switch e.class {
 	case "extend-small", "extend", "big-extend", "sequence-own+foreign", "unmodified":
 		return product(allKinds, consumeModes)
+	case "armor-after-end", "armor-whitespace", "armor-no-end", "armor-cut-end", "armor-body", "armor-payload-extended", "unmodified-armored":
+		return product([]string{"segments", "filled", "filled+eof", "bufio4096"}, three)
 	case "trunc-at-boundary":
 		return append(product(allKinds, consumeModes), e.endProduct(three)...)
 	case "trunc-mid-chunk", "trunc-inside-final":
@@ -653,7 +656,11 @@ func hash32(s string) uint32 {
 func (m *monitor) decrypt(e *edited, want []byte) *outcome {
 	h := hash32(e.base.name + "/" + e.class + "/" + e.edit + "@" + e.via)
 	kind, mode := e.delivery()
-	return runDecrypt(openSource(e.segs, kind), m.id, mode, pickBuf(h>>9, len(e.base.pt) > 1<<20), want)
+	src := openSource(e.segs, kind)
+	if e.base.armored {
+		src = armor.NewReader(src)
+	}
+	return runDecrypt(src, m.id, mode, pickBuf(h>>9, len(e.base.pt) > 1<<20), want)
 }
 
 func (m *monitor) tabDelivery(e *edited) {
